@@ -49,7 +49,7 @@ def correspondence(ctx):
         rng = ctx.rng("c15", scheme)
         stream = "notations:" + scheme
         for _ in range(per):
-            k = rng.choice([1, 2, 2, 3])
+            k = rng.choice([1, 2, 2, 3, 3, 4])
             pairs = []
             tries = 0
             while len(pairs) < k and tries < 30:
@@ -89,6 +89,17 @@ def correspondence(ctx):
                 results["snyk-comma"] = lambda: VR.build_range_from_snyk_advisory_string(scheme, sc)
             ss = " ".join("%s%s" % (o, v) for o, v in sk)
             results["snyk-space"] = lambda: VR.build_range_from_snyk_advisory_string(scheme, ss)
+            # Snyk list input, each item in its own notation
+            if len(sk) > 1:
+                cut = rng.randint(1, len(sk) - 1)
+                chunks = [sk[:cut], sk[cut:]]
+                def item(ch, pr):
+                    if len(ch) == 1 and pr[0][0] in ("lt", "le", "gt", "ge") and rng.random() < 0.6:
+                        c, v = pr[0]
+                        return {"lt": "(,%s)", "le": "(,%s]", "gt": "(%s,)", "ge": "[%s,)"}[c] % v
+                    return rng.choice([", ", " ", " ", ","]).join("%s%s" % (o, v) for o, v in ch)
+                mixed = [item(chunks[0], pairs[:cut]), item(chunks[1], pairs[cut:])]
+                results["snyk-list"] = lambda mixed=mixed: VR.build_range_from_snyk_advisory_string(scheme, mixed)
             # Snyk bracket interval for a lower+upper pair
             if len(pairs) == 2 and pairs[0][0] in ("gt", "ge") and pairs[1][0] in ("lt", "le"):
                 br = ("[" if pairs[0][0] == "ge" else "(") + pairs[0][1] + "," + pairs[1][1] + ("]" if pairs[1][0] == "le" else ")")
@@ -107,6 +118,12 @@ def correspondence(ctx):
                 else:
                     g = sep.join("%s%s" % (o, v) for o, v in ops)
                 results["gitlab"] = lambda g=g, gl=gl: VR.from_gitlab_native(gl, g)
+                # the purl type is accepted in place of the GitLab name
+                results["gitlab-purl-name"] = lambda g=g, purl=purl: VR.from_gitlab_native(purl, g)
+                if purl == "composer":
+                    g2 = rng.choice([",", ", "]).join("%s%s" % (o, v) for o, v in ops)
+                    results["gitlab-comma"] = lambda g2=g2, gl=gl: VR.from_gitlab_native(gl, g2)
+                    results["gitlab-comma-purl-name"] = lambda g2=g2, purl=purl: VR.from_gitlab_native(purl, g2)
             # vers
             vt = "vers:%s/%s" % (scheme, "|".join((TXT[c] if c != "eq" else "") + v for c, v in pairs))
             results["vers"] = lambda: VersionRange.from_string(vt)
